@@ -54,6 +54,7 @@ type Model struct {
 	ctorCode map[*ssa.Function]bool
 	validatorAccept map[string]bool
 	spawns []Spawn
+	mustBlockMemo map[*ssa.Function]bool
 	la      *LockAnalysis
 
 	problems []string
